@@ -238,7 +238,7 @@ impl Check for C18 {
         tier.sz(128, 1600)
     }
     fn rule(&self) -> &'static str {
-        "one history per case: 8 (quick) / 14 (thorough) seeded steps over {edit grammar to another valid grammar, edit lexer, change one builder option (recoverer, yacckind, serialisation format, visibility (all six variants), edition, module names, error_on_conflicts, warnings_are_errors, lexer flag), make the grammar invalid (syntax error / unknown rule / conflict under error_on_conflicts / unused token under warnings_are_errors), make the lexer invalid, repair, rebuild unchanged}; every step ends with an incremental build in a subprocess followed by a clean-build oracle in another subprocess (same grammar path, empty output directory); compared: success/failure, generated parser and lexer files byte-identical modulo build timestamp, no generated parser left behind by a failing build, regenerated() true iff sources or settings changed since the last successful build (or the output was removed by a failed build), lexer output untouched (inode+mtime) iff nothing it depends on changed. Non-trivial = history with >= 1 skipped build and >= 1 regeneration caused by an option change or a failure followed by a repair; distinct by history."
+        "one history per case: 8 (quick) / 14 (thorough) seeded steps over {edit grammar to another valid grammar, edit only the grammar body keeping the token numbering (two thirds of these with the file's time stamp equal to the generated parser's), edit lexer, change one builder option (recoverer, yacckind, serialisation format, visibility (all six variants), edition, module names, error_on_conflicts, warnings_are_errors, lexer flag), make the grammar invalid (syntax error / unknown rule / conflict under error_on_conflicts / unused token under warnings_are_errors), make the lexer invalid, repair, rebuild unchanged}; every step ends with an incremental build in a subprocess followed by a clean-build oracle in another subprocess (same grammar path, empty output directory); compared: success/failure, generated parser and lexer files byte-identical modulo build timestamp, no generated parser left behind by a failing build, regenerated() true iff sources or settings changed since the last successful build (or the output was removed by a failed build), lexer output untouched (inode+mtime) iff nothing it depends on changed. Non-trivial = history with >= 1 skipped build and >= 1 regeneration caused by an option change or a failure followed by a repair; distinct by history."
     }
     fn assumptions(&self) -> Vec<&'static str> {
         vec!["file timestamps are real; edits always happen after the previous build's output was written, so the strict mtime comparison in the skip test sees them the way a user's edits would be seen", "files are never touched without a content change", "every build starts after the file-system clock has ticked past the last edit (the harness waits for it); if the generated parser is nevertheless not strictly newer than the grammar file, a regeneration without a change is the builder's documented conservative behaviour and is counted (regenerated_on_timestamp_tie), not reported"]
@@ -247,7 +247,7 @@ impl Check for C18 {
         tier.sz(60, 800)
     }
     fn required_counters(&self, _t: Tier) -> Vec<&'static str> {
-        vec!["histories", "steps", "builds_skipped", "builds_regenerated", "builds_failed", "option_changes", "failing_builds_after_good_build", "files_compared_with_clean_build"]
+        vec!["histories", "steps", "builds_skipped", "builds_regenerated", "builds_failed", "option_changes", "failing_builds_after_good_build", "files_compared_with_clean_build", "same_token_edits_at_the_output_time_stamp"]
     }
     fn case_cap_s(&self, _t: Tier) -> u64 {
         300
@@ -284,9 +284,9 @@ impl Check for C18 {
             let op = if step == 0 {
                 0
             } else if !grammar_valid || !lexer_valid {
-                rng.weighted(&[6, 8, 4, 10, 4, 2, 40])
+                rng.weighted(&[6, 8, 4, 10, 4, 2, 40, 4])
             } else {
-                rng.weighted(&[14, 14, 10, 26, 14, 8, 4])
+                rng.weighted(&[14, 14, 10, 26, 14, 8, 4, 14])
             };
             match op {
                 0 => history.push("build".into()),
@@ -365,6 +365,39 @@ impl Check for C18 {
                     std::fs::write(&lp, &ltext).ok();
                     lexer_valid = false;
                     history.push("break-lexer".into());
+                }
+                7 => {
+                    // edit the grammar body only: one more alternative built from existing tokens, so the
+                    // token numbering (all the cache key knows about the grammar) is unchanged and the file's
+                    // time stamp is the only thing that can reveal the edit. Two times out of three the edit
+                    // lands in the same clock tick as the previous build's output (equal time stamps).
+                    let r = rng.below(g.rules.len());
+                    let nt = g.tokens.len().max(1);
+                    let k = rng.range(1, 3);
+                    let syms: Vec<ASym> = (0..k).map(|_| ASym::T(rng.below(nt))).collect();
+                    if !g.rules[r].prods.iter().any(|p| p.syms == syms) {
+                        g.add_prod(r, syms);
+                        if matches!(g.kind, AKind::Grmtools | AKind::OriginalUser) {
+                            // the action kinds need action code on every production (all rules return u64)
+                            g.rules[r].prods.last_mut().unwrap().action = Some("9".to_string());
+                        }
+                    }
+                    cfg.kind = g.kind;
+                    gtext = render(&g, &mut rng);
+                    std::fs::write(&gp, &gtext).ok();
+                    grammar_valid = true;
+                    let mut tie = false;
+                    if rng.chance(2, 3) {
+                        if let Some(t) = mtime(&format!("{outd}/g.y.rs")) {
+                            if let Ok(f) = std::fs::File::options().write(true).open(&gp) {
+                                tie = f.set_modified(t).is_ok();
+                            }
+                        }
+                    }
+                    if tie {
+                        out.count("same_token_edits_at_the_output_time_stamp", 1);
+                    }
+                    history.push(if tie { "edit-body-same-tokens@tie".into() } else { "edit-body-same-tokens".into() });
                 }
                 _ => {
                     // repair both
